@@ -130,7 +130,11 @@ def merge(scns, tracefile):
                      "dict_points": [[e["to"], e["ti"]] for e in r["setdict"] if not e.get("wrong_state") and "to" in e and e["ret"] == 0 and e.get("ret2", 0) == 0],
                      "dict_at_start": 1 if r["dictmode"] in (1, 2) else 0,
                      "wrong_state_accepted": [e["seq"] + 1 for e in r["setdict"] if e.get("wrong_state") and (e["ret"] == 0 or e.get("ret2", 1) == 0)],
-                     "expect_ret": r["meta"].get("expect_ret", 0), "complete_supply": r["meta"].get("complete_supply", True), "salt": r["meta"].get("salt", 0)})
+                     "expect_ret": r["meta"].get("expect_ret", 0), "complete_supply": r["meta"].get("complete_supply", True), "salt": r["meta"].get("salt", 0),
+                     "nodecode": 1 if r["meta"].get("nodecode") else 0})      # nodecode: only the per-call rules and faults are judged (memory-safety sweeps of C05)
+        if recs[-1]["nodecode"]:      # ... so the bytes themselves are not handed to TLC (its JSON reader is the bottleneck for thousands of small scenarios)
+            recs[-1]["inp"] = []
+            recs[-1]["calls"] = [dict(c, out=[], outlen=len(c.get("out", []))) for c in recs[-1]["calls"]]
     return recs, summary, by
 
 def group_inflate(recs):
